@@ -1,0 +1,25 @@
+//go:build verif
+
+// Machine-checked contracts for package tracing (comment-only; read by /verif/gocv).
+
+package tracing
+
+// Interface contracts.  ITracer.Send appends exactly one Trace event for the
+// calling activation; how the broadcaster turns that into deliveries is the
+// contract of (*tracer).run below.
+
+//@ func ITracer.Send
+//@   assumed
+//@   modifies nothing
+//@   emits Trace(this, trace)
+
+//@ func ITracer.RegisterSender
+//@   assumed
+//@   modifies nothing
+//@   emits Call(code("ITracer.RegisterSender"), this)
+//@   ensures tag(result) != 0
+
+//@ func ISenderHandle.Done
+//@   assumed
+//@   modifies nothing
+//@   emits Call(code("ISenderHandle.Done"), this)
